@@ -76,8 +76,11 @@ pub fn check_restored(
 
 pub fn run(ctx: &mut Ctx) {
     let thorough = ctx.thorough();
-    let n_model = if thorough { 3000 } else { 260 };
-    let n_big = if thorough { 300 } else { 40 };
+    run_scaled(ctx, if thorough { 3000 } else { 260 }, if thorough { 300 } else { 40 }, true);
+}
+
+pub fn run_scaled(ctx: &mut Ctx, n_model: usize, n_big: usize, exhaustive_subsets: bool) {
+    let thorough = ctx.thorough();
     let kinds = ["high", "low", "default", "rs"];
 
     struct Item {
@@ -88,7 +91,7 @@ pub fn run(ctx: &mut Ctx) {
     let mut items: Vec<Item> = vec![];
 
     // (a) exhaustive subsets of small configurations (k + r <= limit), both dedicated rates, 2-byte shards
-    let limit = if thorough { 9 } else { 6 };
+    let limit = if !exhaustive_subsets { 0 } else if thorough { 9 } else { 6 };
     let mut exhaustive = 0usize;
     for k in 1..limit {
         for r in 1..=(limit - k) {
